@@ -108,9 +108,9 @@ class App(BaseComponent):
         return 'ok %s' % req.path
 
 
-def make_harness(n_mut, truncation=True):
+def make_harness(n_mut, truncation=True, bases=None):
     def harness(g):
-        bname, msg = g.pick('base', BASES)
+        bname, msg = g.pick('base', [b for b in BASES if bases is None or b[0] in bases])
         applied = []
         for k in range(n_mut):
             mname, fn = g.pick('mut%d' % k, MUTATIONS)
@@ -258,7 +258,9 @@ def parts(tier):
                      encoded=ENC, budget_s=90)]
     return [Part('one-mutation', make_harness(1), bounds={'mutations_per_request': 1}, encoded=ENC, budget_s=900),
             Part('two-mutations-whole', make_harness(2, truncation=False), bounds={'mutations_per_request': 2, 'truncation': 'none (whole message)', 'disconnect_after': 'yes/no'},
-                 encoded=ENC, budget_s=900)]
+                 encoded=ENC, budget_s=900),
+            Part('two-mutations-truncated', make_harness(2, bases=['get', 'post-chunked']), bounds={'bases': ['get', 'post-chunked'], 'mutations_per_request': 2, 'truncation': 'every offset (z3 Int), or the whole message'},
+                 encoded=ENC, budget_s=1800)]
 
 
 if __name__ == '__main__':
